@@ -19,6 +19,7 @@ import (
 func init() {
 	mon.Register(&mon.Check{
 		ID:        "C09",
+		Boost:     3,
 		Batches:   func(tier string) int { return 16 },
 		Run:       runC09,
 		RaceAlso:  true,
